@@ -137,7 +137,7 @@ class C22(Property):
                     except Exception:  # noqa: BLE001
                         pass
         try:
-            run_watchdog(go, 40)
+            run_watchdog(go, 75)
             obs["status"] = "ok"
         except Hang as e:
             obs["status"] = "hang"
